@@ -126,7 +126,7 @@ func Families(tier string) []Family {
 		}
 		for _, m := range []mk{
 			{"multi-ss", "sslice", Ts("--l", "--l=v", "v", "w", "--b", "--", "-", "cmd", "-x")},
-			{"multi-is", "islice", Ts("--l", "--l=1", "--l=1..3", "1", "2", "1..3", "3..1", "x", "--b", "--")},
+			{"multi-is", "islice", Ts("--l", "--l=1", "--l=1..3", "1", "2", "1.5", "1..3", "3..1", "x", "--b", "--")},
 			{"multi-fs", "fslice", Ts("--l", "--l=1.5", "--l=x", "1.5", "2", "x", "--b", "--")},
 			{"multi-sm", "smap", Ts("--l", "--l=k=v", "k=v", "k=w=z", "K=v", "j=1", "x", "--b", "--")},
 		} {
@@ -168,11 +168,14 @@ func Families(tier string) []Family {
 	{
 		f := Family{Name: "abbrev"}
 		toks := Ts("--v", "--ve", "--ver", "--verb", "--verbose", "--vers", "--version", "--veri", "--verify",
-			"-v", "-ve", "-ver", "--ver=x", "--ve=x", "cmd", "x")
+			"-v", "-ve", "-ver", "--ver=x", "--ve=x", "--p", "cmd", "x")
 		for mode := 0; mode < 3; mode++ {
 			c := Cfg{Mode: mode}
 			c.Nodes = []NodeCfg{rootNode(0, false), cmdNode("cmd", 1, 0, false, true)}
-			c.Opts = []OptCfg{opt("bool", "v", 1), opt("string", "ver", 1), opt("incr", "verbose", 1, "version"), opt("bool", "verify", 2)}
+			// the same spelling can resolve differently before and after the command token:
+			// --p is profile at the root and ambiguous inside cmd; --verb is verbose at the root and the exact name verb inside cmd
+			c.Opts = []OptCfg{opt("bool", "v", 1), opt("string", "ver", 1), opt("incr", "verbose", 1, "version"), opt("bool", "profile", 1),
+				opt("bool", "verify", 2), opt("bool", "password", 2), opt("bool", "verb", 2)}
 			f.Defs = append(f.Defs, Def{Cfg: c, Tokens: toks, L: lim(tier, 3, 4)})
 		}
 		fams = append(fams, f)
@@ -246,7 +249,7 @@ func Families(tier string) []Family {
 	// tree: command trees with functions, own options, wrappers, help (C10)
 	{
 		f := Family{Name: "tree"}
-		toks := Ts("a", "b", "s", "w", "--r", "--r=a", "--ao", "--so", "--", "x", "help", "--help", "--u")
+		toks := Ts("a", "b", "s", "w", "--r", "--r=a", "--l", "--ao", "--so", "--", "x", "help", "--help", "--u")
 		for mode := 0; mode < 3; mode += 2 {
 			for variant := 0; variant < 3; variant++ {
 				c := Cfg{Mode: mode}
@@ -254,7 +257,7 @@ func Families(tier string) []Family {
 				case 0: // root fn; a(fn, own ao) -> s(fn, own so); b without fn; help
 					c.Nodes = []NodeCfg{rootNode(0, false), cmdNode("a", 1, 0, false, true), cmdNode("s", 2, 0, false, true), cmdNode("b", 1, 0, false, false)}
 					c.Nodes[0].Fn = true
-					c.Opts = []OptCfg{opt("string", "r", 1), opt("bool", "ao", 2), opt("bool", "so", 3)}
+					c.Opts = []OptCfg{opt("string", "r", 1), opt("bool", "ao", 2), opt("bool", "so", 3), multi("sslice", "l", 1, 1, 3)}
 					c = WithHelp(c, "help")
 				case 1: // root without fn; a without fn -> s fn; w wrapper; no help
 					c.Nodes = []NodeCfg{rootNode(2, false), cmdNode("a", 1, 2, false, false), cmdNode("s", 2, 2, false, true), cmdNode("w", 1, 2, false, true)}
